@@ -14,6 +14,9 @@ inputs      dense random u, w next to hard (0/1) memberships with a diagonal w, 
             communities have Poisson rate exactly 0; single calls next to histories of several sample()
             calls on ONE sampler object (matching_sequences is never reset): every yielded hypergraph is
             judged against the conditioning of its own call and the flag reported at that moment.
+            Initial hypergraphs are unweighted or WEIGHTED (the conditioning is the degree / size sequences
+            the library reports for the object).  The twin of a run (same parameters, same seed) is built
+            and driven under DIFFERENT states of Python's global random and numpy's global generator.
 """
 import concurrent.futures as cf
 import json
@@ -65,6 +68,7 @@ def explore(tier):
 U_VALUES = [0.0, 0.0, 0.3, 0.5, 1.0, 1.0, 1.5]
 W_VALUES = [0.0, 0.2, 0.5, 1.0]
 HARD_SHARE = 0.35     # share of the inputs with hard memberships and a diagonal w
+INIT_WEIGHTS = [1, 1, 2, 2, 3, 3, 5, 2.5, 0.5]      # weights of a weighted initial hypergraph
 
 
 def gen_uw(rng, n, scale=1.0):
@@ -126,7 +130,16 @@ def common(rng, n, tier):
 def call_init(rng, n, maxsize=6):
     m = rng.randint(2, 6 if n > 3 else 4)
     edges = gen_edges(rng, n, m, maxsize=maxsize)
-    return {"mode": "init", "edges": [list(e) for e in edges], "listing": [rng.sample(list(e), len(e)) for e in edges]}
+    c = {"mode": "init", "edges": [list(e) for e in edges], "listing": [rng.sample(list(e), len(e)) for e in edges]}
+    # the quantifier says "all initial hypergraphs": half of them are WEIGHTED (weights 1, 2, 3, now and then not an integer).
+    # The conditioning is the hypergraph's degree and size sequences as the library defines them (Hypergraph.degree_sequence,
+    # get_sizes: one count per hyperedge, whatever its weight) - start_call reads them from the object it hands over
+    r = rng.random()
+    if r < 0.5:
+        c["weights"] = [rng.choice(INIT_WEIGHTS) for _ in edges]
+        if r < 0.35 and all(w == 1 for w in c["weights"]):
+            c["weights"][rng.randrange(len(edges))] = rng.choice([2, 3])
+    return c
 
 
 def call_seqs(rng, n, kind=None, maxsize=6):
@@ -254,10 +267,18 @@ def start_call(smp, s, c):
     if c["mode"] == "init":
         labels = s["labels"]
         inv = {l: i + 1 for i, l in enumerate(labels)}
-        h = Hypergraph()
+        wts = c.get("weights")
+        h = Hypergraph(weighted=True) if wts else Hypergraph()
         h.add_nodes([labels[i - 1] for i in range(1, s["n"] + 1)])
-        for e in c["listing"]:
-            h.add_edge(tuple(labels[i - 1] for i in e))
+        for k, e in enumerate(c["listing"]):
+            if wts:
+                h.add_edge(tuple(labels[i - 1] for i in e), weight=wts[k])
+            else:
+                h.add_edge(tuple(labels[i - 1] for i in e))
+        # the conditioning of this call, read from the object through the public API (spec node ids)
+        dseq = h.degree_sequence()
+        hdr["deg_of_object"] = [int(dseq[labels[i - 1]]) for i in range(1, s["n"] + 1)]
+        hdr["sizes_of_object"] = sorted(len(e) for e in h.get_edges())
         mp = h.get_mapping()
         hdr["idmap"] = [inv[x] for x in mp.classes_.tolist()]
         hdr["chain0"] = [sorted(int(x) for x in mp.transform(e)) for e in h.get_edges()]
@@ -319,12 +340,20 @@ def conv(ev):
     return None
 
 
-def one_side(s, hk, keep_events):
+def global_seeds(s, twin):
+    """states of the process-global generators (Python's random, numpy's legacy global) before a sampler is built: the statement
+    makes the samples a function of the parameters and the SEED, so the run and its twin start from DIFFERENT global states
+    (a draw from a global generator instead of the sampler's own then shows as a difference between the twins)"""
+    return ((s["seed"] * 2 + 1) * (7919 if twin else 1) + 104729 * twin) % (2 ** 32), (s["seed"] + 15485863 * twin) % (2 ** 32)
+
+
+def one_side(s, hk, keep_events, twin=0):
     """one sampler object, the calls of the spec one after the other
     -> (list per call of dict(seq = per-sample dict(events, obs), raised, hdr, flag0), oversize)"""
     calls, big = calls_of(s), False
-    random.seed(s["seed"])
-    np.random.seed(s["seed"] % (2 ** 32))
+    gs = global_seeds(s, twin)
+    random.seed(gs[0])
+    np.random.seed(gs[1])
     if hk:
         hk.EVENTS.clear()
     try:
@@ -369,7 +398,7 @@ def make_trace(s, hk):
     """runs the sampler twice (same parameters, same seed, same calls); returns a list, one (trace or None, stats)
     per call of sample()"""
     sa, biga = one_side(s, hk, True)
-    sb, bigb = one_side(s, hk, False)
+    sb, bigb = one_side(s, hk, False, twin=1)
     res = []
     for ci, c in enumerate(calls_of(s)):
         a, b, hdr = sa[ci]["seq"], sb[ci]["seq"], sa[ci]["hdr"]
@@ -396,6 +425,9 @@ def make_trace(s, hk):
         if c["mode"] == "init":
             deg = [sum(1 for e in c["edges"] if i in e) for i in range(1, s["n"] + 1)]
             sizes = [len(e) for e in c["edges"]]
+            if "deg_of_object" in hdr and (hdr["deg_of_object"] != deg or hdr["sizes_of_object"] != sorted(sizes)):
+                raise tlc.TLCError("C16 harness: the initial hypergraph reports degree / size sequences %s / %s, built from %s"
+                                   % (hdr["deg_of_object"], hdr["sizes_of_object"], c))
         elif c["mode"] == "seqs":
             deg = list(c["deg"])
             sizes = [z for z, k in c["dim"] for _ in range(k)]
@@ -665,7 +697,10 @@ def finish_cov(res, traces, v, specs):
         "runs that raise before the first sample (too few hyperedges for a move, no zero-degree node left to pad with, "
         "self.model AttributeError of the degree-only branch) yield no sample: counted, not judged (DESIGN.md section 5)",
         "SeedFunctional compares two samplers built in the same process with identical arguments that serve the same calls; "
-        "a run and its twin must also stop (raise) after the same number of samples",
+        "a run and its twin must also stop (raise) after the same number of samples; before each of the two is built Python's global "
+        "random and numpy's global generator are seeded DIFFERENTLY (both derived from the spec's seed, see global_seeds)",
+        "half of the initial hypergraphs are weighted (weights 1, 2, 3, 5, 2.5, 0.5): the conditioned degree and size sequences are those "
+        "the library reports for the object (degree_sequence, sizes of get_edges: one count per hyperedge whatever its weight)",
         "several sample() calls on one sampler object are made one after the other; only the samples of the latest call are "
         "drawn and each is judged against the conditioning of that call and the matching_sequences flag the object reports "
         "when the hypergraph is handed out (generators of earlier calls are not resumed)",
